@@ -1,6 +1,10 @@
 """Subprocess side of the C12 check: runs one scripted history against the real loader.
 
-usage: python c12_runner.py spec.json      (cwd / sys.path[0] = the holpy tree under test)
+usage: python c12_runner.py spec.json      (cwd / sys.path[0] = the holpy tree under test): one history, one process
+       python c12_runner.py --zygote boot.json   imports logic.basic (nothing else: no metadata, no theory), then reads
+           lines {"spec": path, "out": path} from stdin and FORKS one child per line; the child is in the state of a
+           process that has just imported the loader and runs the history of its spec (used for the synthetic battery:
+           the import of the loader costs ~2.5 s of CPU per process, a fork costs nothing)
 spec = {"repo": path, "libroot": null | scratch root (has library/ and logic/), "interest": [module names],
         "ops": [{"op": "import", "module": m} | {"op": "load", "name": n, "limit": null|"start"|[ty, name],
                  "fault": null|[file, index]} | {"op": "touch", "name": n, "mtime": t} |
@@ -15,7 +19,8 @@ import shutil
 import sys
 import traceback
 
-spec = json.load(open(sys.argv[1]))
+ZYGOTE = sys.argv[1] == "--zygote"
+spec = json.load(open(sys.argv[2] if ZYGOTE else sys.argv[1]))
 sys.path.insert(0, spec["repo"])
 sys.setrecursionlimit(20000)
 sys.dont_write_bytecode = True
@@ -39,12 +44,12 @@ from kernel import theory  # noqa: E402
 from logic import basic  # noqa: E402
 from server import items  # noqa: E402
 
-if spec.get("libroot"):
-    basic.dirname = os.path.join(spec["libroot"], "logic")
-
 # --- tracing wrappers (harness side only)
 reads = []
 state = {"meta": 0, "cur": None, "fault": None}
+# health of the instrumentation: the wrappers below hang on internals of logic/basic.py (module attributes looked up at call
+# time); a refactoring may bypass them.  The harness uses the tags only when these counters show that they were hit.
+instr = {"json": 0, "parse": 0, "extend": 0, "tagged": 0}
 
 
 class Injected(Exception):
@@ -55,18 +60,20 @@ class Tagged(list):
     tag = None
 
 
-_load_json = basic.load_json_data
+_load_json = getattr(basic, "load_json_data", None)      # an internal helper: may be renamed or inlined
 
 
 def load_json_data(filename, username="master"):
     data = _load_json(filename, username)
     if not state["meta"]:
+        instr["json"] += 1
         reads.append(filename)
         state["cur"] = [filename, 0]
     return data
 
 
-basic.load_json_data = load_json_data
+if _load_json is not None:
+    basic.load_json_data = load_json_data
 _load_meta = basic.load_metadata
 
 
@@ -86,6 +93,7 @@ _parse_item = items.parse_item
 def parse_item(data):
     cur = state["cur"]
     tag = None
+    instr["parse"] += 1
     if cur is not None:
         tag = (cur[0], cur[1])
         cur[1] += 1
@@ -120,6 +128,9 @@ def unchecked_extend(self, exts):
     tag = getattr(exts, "tag", "?")
     exts = list(exts)
     _unchecked(self, exts)
+    instr["extend"] += 1
+    if isinstance(tag, tuple):
+        instr["tagged"] += 1
     self.__dict__.setdefault("_c12", []).append(tag)
 
 
@@ -178,6 +189,14 @@ def dump_theory(thy):
     }
 
 
+def names_of(thy):
+    """what a user can observe: the names of the types, constants and theorems of the theory"""
+    if thy is None:
+        return None
+    d = thy.data
+    return {"types": sorted(d.get("type_sig", {})), "consts": sorted(d.get("term_sig", {})), "theorems": sorted(d.get("theorems", {}))}
+
+
 def classify(e):
     tb = traceback.extract_tb(e.__traceback__)
     where = [fr.name for fr in tb if fr.filename.endswith(os.path.join("logic", "basic.py"))]
@@ -185,57 +204,97 @@ def classify(e):
     return {"type": type(e).__name__, "msg": str(msg)[:200], "where": where[-3:]}
 
 
-pre = sorted(m for m in INTEREST if m in sys.modules)
-out_ops = []
-for op in spec["ops"]:
-    del reads[:]
-    del mod_log[:]
-    state["fault"] = None
-    res = "ok"
-    try:
-        if op["op"] == "import":
-            __import__(op["module"])
-        elif op["op"] == "load":
-            lim = op.get("limit")
-            if isinstance(lim, list):
-                lim = tuple(lim)
-            state["fault"] = op.get("fault")
-            basic.load_theory(op["name"], limit=lim)
-        elif op["op"] == "touch":
-            p = basic.user_file(op["name"])
-            os.utime(p, (op["mtime"], op["mtime"]))
-        elif op["op"] == "edit":
-            p = basic.user_file(op["name"])
-            assert spec.get("libroot") and os.path.realpath(p).startswith(os.path.realpath(spec["libroot"]))
-            shutil.copyfile(op["src"], p)
-            os.utime(p, (op["mtime"], op["mtime"]))
-        elif op["op"] == "reload":
-            basic.load_metadata()
-        else:
-            raise ValueError(op)
-    except BaseException as e:  # noqa
-        res = classify(e)
-    finally:
+def run_spec(spec, out):
+    import time
+    t_start = time.time()
+    if spec.get("libroot"):
+        basic.dirname = os.path.join(spec["libroot"], "logic")
+    pre = sorted(m for m in INTEREST if m in sys.modules)
+    out_ops = []
+    for op in spec["ops"]:
+        del reads[:]
+        del mod_log[:]
         state["fault"] = None
-    rec = {"res": res, "reads": list(reads), "mods": list(mod_log)}
-    if op["op"] == "load":
-        # snapshot of theory.thy after every load (outcome is judged op by op)
-        t = theory.thy
-        rec["thy_items"] = None if t is None else [list(x) if isinstance(x, tuple) else x for x in t.__dict__.get("_c12", [])]
-        d = dump_theory(t)
-        rec["digest"] = None if d is None else hashlib.sha1(json.dumps(d, sort_keys=True).encode("utf-8")).hexdigest()
-        if spec.get("dump_all"):
-            rec["dump"] = d
-    out_ops.append(rec)
+        res = "ok"
+        try:
+            if op["op"] == "import":
+                __import__(op["module"])
+            elif op["op"] == "load":
+                lim = op.get("limit")
+                if isinstance(lim, list):
+                    lim = tuple(lim)
+                state["fault"] = op.get("fault")
+                basic.load_theory(op["name"], limit=lim)
+            elif op["op"] == "touch":
+                p = basic.user_file(op["name"])
+                os.utime(p, (op["mtime"], op["mtime"]))
+            elif op["op"] == "edit":
+                p = basic.user_file(op["name"])
+                assert spec.get("libroot") and os.path.realpath(p).startswith(os.path.realpath(spec["libroot"]))
+                shutil.copyfile(op["src"], p)
+                os.utime(p, (op["mtime"], op["mtime"]))
+            elif op["op"] == "reload":
+                basic.load_metadata()
+            else:
+                raise ValueError(op)
+        except BaseException as e:  # noqa
+            res = classify(e)
+        finally:
+            state["fault"] = None
+        rec = {"res": res, "reads": list(reads), "mods": list(mod_log)}
+        if op["op"] == "load":
+            # snapshot of theory.thy after every load (outcome is judged op by op)
+            t = theory.thy
+            rec["thy_items"] = None if t is None else [list(x) if isinstance(x, tuple) else x for x in t.__dict__.get("_c12", [])]
+            rec["names"] = names_of(t)
+            d = dump_theory(t)
+            rec["digest"] = None if d is None else hashlib.sha1(json.dumps(d, sort_keys=True).encode("utf-8")).hexdigest()
+            if spec.get("dump_all"):
+                rec["dump"] = d
+        out_ops.append(rec)
 
-thy = theory.thy
-flags = {}
-for name, c in basic.theory_cache.get("master", {}).items():
-    if "content" in c and "timestamp" in c:
-        flags[name] = [it.error is None for it in c["content"]]
-final = {
-    "thy_items": None if thy is None else [list(t) if isinstance(t, tuple) else t for t in thy.__dict__.get("_c12", [])],
-    "dump": dump_theory(thy),
-    "flags": flags,
-}
-sys.stdout.write("\n@@C12@@" + json.dumps({"ops": out_ops, "final": final, "pre": pre}) + "\n")
+    thy = theory.thy
+    flags = {}
+    for name, c in basic.theory_cache.get("master", {}).items():
+        if "content" in c and "timestamp" in c:
+            flags[name] = [it.error is None for it in c["content"]]
+    final = {
+        "thy_items": None if thy is None else [list(t) if isinstance(t, tuple) else t for t in thy.__dict__.get("_c12", [])],
+        "dump": dump_theory(thy),
+        "flags": flags,
+    }
+    out.write("\n@@C12@@" + json.dumps({"ops": out_ops, "final": final, "pre": pre, "instr": instr, "wall": round(time.time() - t_start, 2)}) + "\n")
+    out.flush()
+
+
+if not ZYGOTE:
+    run_spec(spec, sys.stdout)
+else:
+    limit = int(spec.get("workers", 8))
+    running = set()
+    import gc
+    gc.collect()
+    gc.freeze()          # children do not traverse (and so do not copy) the importer's heap
+
+    for line in sys.stdin:
+        line = line.strip()
+        if not line:
+            continue
+        job = json.loads(line)
+        while len(running) >= limit:
+            pid, _ = os.wait()
+            running.discard(pid)
+        pid = os.fork()
+        if pid == 0:
+            code = 0
+            try:
+                with open(job["out"], "w") as fh:
+                    run_spec(json.load(open(job["spec"])), fh)
+            except BaseException:  # noqa
+                traceback.print_exc()
+                code = 1
+            os._exit(code)
+        running.add(pid)
+    while running:
+        pid, _ = os.wait()
+        running.discard(pid)
